@@ -8,6 +8,40 @@ ROOT = os.path.dirname(os.path.dirname(os.path.abspath(__file__)))
 TECH = "bounded symbolic execution of the real functions (object-dtype numpy carrying symbolic scalars) + z3 validity queries per output component; counterexamples replayed on the unpatched code"
 
 CHECKS = {
+    "C01": dict(
+        text="All 18 edge functions of orbits/forms.py, Form.M2E and Infos are executed symbolically (exact reals, angles as unit-circle "
+             "atoms, hyperbolic anomalies as unit-hyperbola atoms). Proved for all inputs in the elliptic (0<e<1) and hyperbolic (e>1) "
+             "families: every edge there-and-back is the identity; each form's numbers equal independent textbook definitions "
+             "(spherical/cylindrical values and rates as time derivatives by dual numbers; eccentric/hyperbolic anomaly through "
+             "the perifocal geometry; Kepler's equation; circular, equinoctial, TLE forms; keplerian->cartesian against the "
+             "perifocal rotation; cartesian->keplerian against energy / eccentricity vector / h / node definitions and as left "
+             "inverse of the reference k->c); Infos relations (vis-viva, apsides, period, vinf, dinf, flight-path angle); on "
+             "every return path of M2E within the unwinding bound the returned anomaly solves Kepler's equation to 2 e tol; all "
+             "90 ordered form pairs route through existing edges (enumerated).",
+        note="Trusted: z3; numpy object-dtype kernels; textbook definitions written in the harness; Lipschitz/convexity lemmas for "
+             "sin/sinh in the M2E exit argument; the encoder's polynomial normal form (only as fallback when the solver is "
+             "inconclusive, cross-checked against solver verdicts). Assumed: non-degenerate states (denominators non-zero). "
+             "Outside: convergence/termination of M2E, floating-point loss near e->0, i->0.",
+        ref="DESIGN.md section 3 C01", technique=TECH),
+    "C05": dict(
+        text="Kepler.propagate and J2.propagate are executed symbolically on a mean-element carrier with the real Infos: proved for "
+             "all elements, mu and dt that a,e,i,Omega,omega are unchanged and M advances by sqrt(mu/|a|^3) dt (elliptic and "
+             "hyperbolic), composition t1 then t2 = t1+t2, inverse, periodicity; J2 keeps a,e,i and drifts Omega, omega, M at the "
+             "independently written first-order secular rates, no node drift when cos i = 0, no perigee drift when sin^2 i = 4/5.",
+        note="Trusted: z3, the secular-rate reference formulas. The trailing mean->cartesian conversion is cut (covered by C01). "
+             "Outside: agreement with a universal-variable solution (transcendental).",
+        ref="DESIGN.md section 3 C05", technique=TECH),
+    "C17": dict(
+        text="to_qsw/to_tnw/to_local, ImpulsiveMan, ContinuousMan, dkep2dv and the maneuver clause of KeplerNum._make_step are "
+             "executed symbolically: proved for every state with non-zero angular momentum that the matrices are proper rotations "
+             "with the defined axes (M M^T = I, det = 1, rows = r^ / v^, completion, h^), that a maneuver contributes exactly its "
+             "stated components along the stated axes (all 3 frames, impulsive / continuous by dv / by accel), window arithmetic "
+             "for the three date_pos, exactly-once firing of an impulse over any tiling of the span by forward steps (bounded "
+             "number of tiles), _make_step adds the impulse iff t0 < date <= t0+h, and dkep2dv obeys Al-Kashi / Gauss relations.",
+        note="Trusted: z3; independent triad construction in the harness. _accel is stubbed by a symbolic derivative vector here "
+             "(integrator schema is C06). Outside: first-order realisation of (da, di, dOmega) beyond the tangential identity; "
+             "off-grid continuous-burn quadrature.",
+        ref="DESIGN.md section 3 C17", technique=TECH),
     "C16": dict(
         text="Every formula of ClohessyWiltshire._propagate/propagate and of the CWHelper maneuvers is executed symbolically "
              "(exact reals, cos/sin as a point on the unit circle) and the solver proves, for all n>0, all times, all initial "
